@@ -59,7 +59,7 @@ class C03(Prop):
     lean_exe = "c03_driver"
     harness = "h_msafile.c"
     theorems = ["EaselModel.Props.C03." + t for t in ("afa_write_deterministic", "afa_roundtrip_text", "afa_roundtrip_digital", "afa_roundtrip",
-                                                      "afa_write_accepted", "afa_preserves_names_rows")] + [
+                                                      "afa_write_accepted", "afa_preserves_names_rows", "afa_rewrite_same_text", "afa_rewrite_same_digital")] + [
         "EaselModel.Msafile.afaRead_write", "EaselModel.Msafile.splitLines_join", "EaselModel.Msafile.afaDigitalWritable_writable"]
     claimed = True
     technique = ("Lean 4 proof (writers as functions Msa -> Bytes composed with the C01 reader models) + exact differential correspondence of written bytes "
